@@ -14,7 +14,7 @@ from pytestarch import DiagramRule, LayeredArchitecture, LayerRule, Rule
 
 from .. import models as M
 from .. import rulespace as RS
-from ..drive import Project, eval_layer_rule, eval_rule, make_evaluable, outcome, reuse_aware, scan_outcome
+from ..drive import Project, eval_layer_rule, eval_rule, make_evaluable, outcome, reuse_aware, scan_outcome, snapshot
 
 ID = "C13"
 MOD = __name__
@@ -27,7 +27,7 @@ RULE_TEXT = (
     "text classifies a history as must-error or no-claim; must-error histories have to raise a non-assertion error "
     "somewhere and never return a verdict. (B) random architectures (direct and level-limited) with rules / layer rules "
     "mentioning one absent name (misspelt, prefix-sharing, below the level limit, child of a leaf) alone or inside a "
-    "batch, all 12 shapes + aliases. (C) all 2^5 entry-point option combinations x 4 module_path placements on a small "
+    "batch, all 12 shapes + aliases. (C) all 2^5 entry-point option combinations x 7 module_path placements x both entry points (paths, module objects) on a small "
     "on-disk project. Non-trivial: must-error history of >= 3 calls, or absent name sharing a prefix with an existing one, "
     "or an invalid option combination."
 )
@@ -591,7 +591,25 @@ def check_entry_case(spec: dict) -> dict:
         if "regex_external_exclusions" in on:
             kw["regex_external_exclusions"] = ("logging.*",)
         kw["exclude_external_libraries"] = "include_external" not in on
-        res = scan_outcome(pr.path(), mp, **kw)
+        if spec.get("via") == "module-objects":
+            # the same request through the module-object entry point (what 'import proj' / 'import proj.a' would hand over)
+            import types as _types
+
+            from pytestarch import get_evaluable_architecture_for_module_objects as _gea_obj
+
+            def _mod(name, directory):
+                m = _types.ModuleType(name)
+                m.__file__ = os.path.join(directory, "__init__.py")
+                m.__path__ = [directory]
+                return m
+
+            try:
+                ev = _gea_obj(_mod("proj", pr.path()), _mod("sub", mp), **kw)
+                res = ("ok", snapshot(ev), ev)
+            except Exception as e:  # noqa: BLE001
+                res = ("error", f"{type(e).__name__}: {e}", None)
+        else:
+            res = scan_outcome(pr.path(), mp, **kw)
     reasons = []
     if {"exclusions", "regex_exclusions"} <= on:
         reasons.append("glob-and-regex-exclusions")
@@ -606,7 +624,7 @@ def check_entry_case(spec: dict) -> dict:
         viols.append({"sig": f"C13/entry-point/{reasons[0]}", "key": {"reason": reasons[0]},
                       "detail": f"options {sorted(on)} module_path={spec['module_path']} must be rejected ({reasons}) but an architecture was built"})
     return {"violations": viols, "nontrivial": bool(reasons),
-            "labels": ["entry-point", "must-error" if reasons else "valid", f"outcome={res[0]}"]}
+            "labels": ["entry-point", "must-error" if reasons else "valid", f"outcome={res[0]}", f"via={spec.get('via', 'paths')}"]}
 
 
 # ------------------------------------------------------------------------ dispatch
@@ -734,9 +752,10 @@ def exh_misc(arg, stt, deadline) -> None:
     elif what == "entry":
         for bits in product([0, 1], repeat=len(OPTS)):
             for mp in PATHS:
-                spec = {"type": "entry", "opts": [o for o, b in zip(OPTS, bits) if b], "module_path": mp}
-                res = check_entry_case(spec)
-                stt.record(spec, res, enumerated=True, sample=(sum(bits) == 2 and mp == "inside"))
+                for via in ("paths", "module-objects"):
+                    spec = {"type": "entry", "opts": [o for o, b in zip(OPTS, bits) if b], "module_path": mp, "via": via}
+                    res = check_entry_case(spec)
+                    stt.record(spec, res, enumerated=True, sample=(sum(bits) == 2 and mp == "inside"))
 
 
 def run(ctx) -> None:
